@@ -6,6 +6,7 @@ import (
 	"strings"
 
 	"verifsim/engine"
+	"verifsim/gtier"
 	"verifsim/oracle"
 	"verifsim/rollup"
 	"verifsim/tape"
@@ -19,6 +20,7 @@ type rollupCheck struct {
 	focus string // C01 | C02 | C03
 	pool  []*rollup.Circuit
 	poolW int
+	dummy map[string]*gtier.System // per compiled circuit: the repository's ProvingSystem on DummySetup keys
 }
 
 type dims struct {
@@ -148,6 +150,11 @@ func (c *rollupCheck) checkInsertion(x *engine.Ctx, cc *rollup.Circuit, w *rollu
 	if valid && !v.Accepted {
 		return engine.Violatef(pfx+"/valid-insertion-rejected", "%s fault=%s %s: oracle says valid, circuit rejects (%s)", cc.Key(), fault, rollup.DescribeIns(bw), firstLine(v.Err)), false
 	}
+	if valid && x.T.Chance(1, 6) {
+		if pv := c.proverPath(x, cc, bw, nil); pv != nil {
+			return pv, false
+		}
+	}
 	if !valid && v.Accepted {
 		return engine.Violatef(pfx+"/invalid-insertion-accepted/"+reason, "%s fault=%s %s: oracle says invalid (%s), circuit accepts with honest hints", cc.Key(), fault, rollup.DescribeIns(bw), reason), false
 	}
@@ -186,6 +193,11 @@ func (c *rollupCheck) checkDeletion(x *engine.Ctx, cc *rollup.Circuit, w *rollup
 	if valid && !v.Accepted {
 		return engine.Violatef(pfx+"/valid-deletion-rejected", "%s fault=%s slots=%s %s: oracle says valid, circuit rejects (%s)", cc.Key(), fault, kinds, rollup.DescribeDel(bw), firstLine(v.Err)), false
 	}
+	if valid && x.T.Chance(1, 6) {
+		if pv := c.proverPath(x, cc, nil, bw); pv != nil {
+			return pv, false
+		}
+	}
 	if !valid && v.Accepted {
 		return engine.Violatef(pfx+"/invalid-deletion-accepted/"+reason, "%s fault=%s slots=%s %s: oracle says invalid (%s), circuit accepts with honest hints", cc.Key(), fault, kinds, rollup.DescribeDel(bw), reason), false
 	}
@@ -207,6 +219,38 @@ func (c *rollupCheck) checkDeletion(x *engine.Ctx, cc *rollup.Circuit, w *rollup
 		}
 	}
 	return nil, valid
+}
+
+// proverPath hands an oracle-valid batch, as typed parameters, to the repository's own prover entry point
+// (shape validation, witness construction, solver, Groth16 prover) on gnark DummySetup keys for the same
+// compiled system: the property is observed at Prove*'s error as well as at the constraint system, and a
+// batch the circuit accepts must not be refused on the way to it - at every depth, the deepest included.
+func (c *rollupCheck) proverPath(x *engine.Ctx, cc *rollup.Circuit, iw *oracle.InsertionWitness, dw *oracle.DeletionWitness) *engine.Violation {
+	if c.dummy == nil {
+		c.dummy = map[string]*gtier.System{}
+	}
+	ds := c.dummy[cc.Key()]
+	if ds == nil {
+		var err error
+		if ds, err = gtier.DummySystem(cc.Mode, cc.Depth, cc.Batch, cc.Raw()); err != nil {
+			panic("DummySetup: " + err.Error())
+		}
+		c.dummy[cc.Key()] = ds
+	}
+	err := ds.ProveErr(iw, dw)
+	x.S.Eval(1)
+	x.S.Count("prover_path_calls")
+	x.Log.Addf("prover", "prover-path", "%s err=%v", cc.Key(), err != nil)
+	if err != nil {
+		what := ""
+		if iw != nil {
+			what = rollup.DescribeIns(iw)
+		} else {
+			what = rollup.DescribeDel(dw)
+		}
+		return engine.Violatef(c.id+"/valid-batch-refused-by-prover", "%s %s: oracle says valid and the compiled circuit accepts, but Prove%s returns an error: %s", cc.Key(), what, strings.Title(cc.Mode), firstLine(err.Error()))
+	}
+	return nil
 }
 
 func firstLine(s string) string {
